@@ -153,8 +153,14 @@ class Ctx:
             return v
         if len(self.decisions) >= MAX_DEPTH:
             raise Cut("depth")
-        can_t = self.check(cond) == z3.sat
-        can_f = self.check(z3.Not(cond)) == z3.sat
+        try:
+            can_t = self.check(cond) == z3.sat
+            can_f = self.check(z3.Not(cond)) == z3.sat
+        except Inconclusive:
+            # feasibility of a branch undecided within the per-query budget (60 s, then 180 s): the path is abandoned and
+            # counted as a cut ("solver-unknown"), i.e. it lies outside what this run explored; obligations are never
+            # waved through this way (an undecided obligation stays inconclusive)
+            raise Cut("solver-unknown") from None
         if can_t and can_f:
             self.pending.append(self.decisions + [False])
             v = True
